@@ -862,10 +862,30 @@ func intConst(v ssa.Value) (int64, bool) {
 
 // lenAtLeast: the facts holding at b establish len(x) >= need.
 func lenAtLeast(fi *FactInfo, b *ssa.BasicBlock, x ssa.Value, need int64) bool {
+	same := func(a ssa.Value) bool { return a == x || fi.canon(a) == fi.canon(x) }
 	return fi.HoldsWhere(b, func(f Fact) bool {
-		bo, isB := f.V.(*ssa.BinOp)
-		if f.Kind != "true" || !isB {
+		if f.Kind != "true" {
 			return false
+		}
+		// strings.HasPrefix(x, "lit") / HasSuffix answered true: x is at least as long as the literal
+		if call, isCall := f.V.(*ssa.Call); isCall && f.Pol && len(call.Call.Args) == 2 {
+			if cal, _ := calleeOf(&call.Call); cal != nil && cal.Pkg() != nil && (cal.Pkg().Path() == "strings" || cal.Pkg().Path() == "bytes") && (cal.Name() == "HasPrefix" || cal.Name() == "HasSuffix") && same(call.Call.Args[0]) {
+				if k, isK := call.Call.Args[1].(*ssa.Const); isK && k.Value != nil && k.Value.Kind() == constant.String {
+					return int64(len(constant.StringVal(k.Value))) >= need
+				}
+			}
+		}
+		bo, isB := f.V.(*ssa.BinOp)
+		if !isB {
+			return false
+		}
+		// x != "" (or "" != x)
+		if (bo.Op == token.NEQ && f.Pol) || (bo.Op == token.EQL && !f.Pol) {
+			for _, pair := range [][2]ssa.Value{{bo.X, bo.Y}, {bo.Y, bo.X}} {
+				if k, isK := pair[1].(*ssa.Const); isK && k.Value != nil && k.Value.Kind() == constant.String && constant.StringVal(k.Value) == "" && same(pair[0]) {
+					return need <= 1
+				}
+			}
 		}
 		op, l, r := bo.Op, bo.X, bo.Y
 		if _, isK := intConst(l); isK {
